@@ -124,7 +124,7 @@ Definition step (e : eval) (x : op) : opres * eval :=
       | r => r
       end
   | OGetVar name => (RGet (match env_get (eenv e) name with Some v => v | None => VNull end), e)
-  | ODump => (match emachine e with Some _ => RUnit | None => RCrashed end, e)
+  | ODump => (RUnit, e)       (* prints; an error (not a panic) when nothing was prepared *)
   end.
 
 (* a history: the results of all operations, in order *)
